@@ -302,6 +302,10 @@ func ParseStrict(lines []string, media bool) Parsed {
 		p := &parser{s: s, media: media}
 		var line []Range
 		ok := true
+		if s != "" && (isOWS(s[0]) || isOWS(s[len(s)-1])) {
+			// a field value as delivered by an HTTP parser never starts or ends with whitespace
+			p.fail("leading-or-trailing-ows")
+		}
 		p.ows()
 		for p.pos < len(p.s) {
 			rg, rok := p.rangeElem()
@@ -544,7 +548,7 @@ func (h Header) Render(ows func() string) []string {
 // Features names the syntactic feature classes present in the ranges, most telling first.
 func Features(lines []string, ranges []Range) []string {
 	var f []string
-	qsuf, long, after, before, quoted := false, false, false, false, false
+	qsuf, long, mid, after, before, quoted := false, false, false, false, false, false
 	for _, rg := range ranges {
 		for _, pa := range append(append([]Param{}, rg.Before...), rg.After...) {
 			if len(pa.Name) > 1 && strings.HasSuffix(pa.Name, "q") {
@@ -556,6 +560,8 @@ func Features(lines []string, ranges []Range) []string {
 		}
 		if rg.HasQ && FractionDigits(rg.QText) >= 19 {
 			long = true
+		} else if rg.HasQ && FractionDigits(rg.QText) >= 16 {
+			mid = true // 16-18 digits: the digits as an integer may exceed 2^53
 		}
 		if len(rg.After) > 0 {
 			after = true
@@ -569,6 +575,9 @@ func Features(lines []string, ranges []Range) []string {
 	}
 	if long {
 		f = append(f, "qvalue-19plus-fraction-digits")
+	}
+	if mid && !long {
+		f = append(f, "qvalue-16to18-fraction-digits")
 	}
 	if after {
 		f = append(f, "params-after-q")
@@ -713,10 +722,18 @@ func reductions(h Header) []Header {
 					}
 				}
 			}
+			neutral := Param{Name: "p", Value: "v"}
 			for pi, pa := range rg.Before {
-				if pa.Quoted {
+				if pa != neutral {
 					c := cloneHeader(h)
-					c[li][ri].Before[pi].Quoted, c[li][ri].Before[pi].Value = false, "v"
+					c[li][ri].Before[pi] = neutral
+					out = append(out, c)
+				}
+			}
+			for pi, pa := range rg.After {
+				if pa != neutral {
+					c := cloneHeader(h)
+					c[li][ri].After[pi] = neutral
 					out = append(out, c)
 				}
 			}
